@@ -1440,4 +1440,275 @@ theorem sumOver_blocks (w : Wave) (data : List Int) (hlen : data.length = w.iw.l
     rw [Bool.and_eq_true]
     exact ⟨decide_eq_true hc1, decide_eq_true hc2⟩
 
+/-! ## `timestamp_mean(axis=1)` at any split depth (deepening round D) -/
+
+
+/-- what `_int_mean(axis=1)` does to one row `r` of the array `rows` (proof device) -/
+def rowMeanWith (rows : List (List Int)) (w : Nat) (total : Int) (r : List Int) : Int :=
+  if _h : anyCould rows w = true ∧ 2 ≤ w then
+    rowMeanWith (rows.map (·.take (w / 2))) (w / 2) total (r.take (w / 2)) +
+      rowMeanWith (rows.map (·.drop (w / 2))) (w - w / 2) total (r.drop (w / 2))
+  else r.sum / total
+termination_by w
+decreasing_by all_goals omega
+
+def rowTraceWith (rows : List (List Int)) (w : Nat) (total : Int) (r : List Int) : List Int :=
+  if _h : anyCould rows w = true ∧ 2 ≤ w then
+    rowTraceWith (rows.map (·.take (w / 2))) (w / 2) total (r.take (w / 2)) ++
+      rowTraceWith (rows.map (·.drop (w / 2))) (w - w / 2) total (r.drop (w / 2)) ++
+      [rowMeanWith (rows.map (·.take (w / 2))) (w / 2) total (r.take (w / 2)) +
+        rowMeanWith (rows.map (·.drop (w / 2))) (w - w / 2) total (r.drop (w / 2))]
+  else [r.sum, r.sum / total]
+termination_by w
+decreasing_by all_goals omega
+
+theorem zipWith_map_map {α} (f g : α → Int) (l : List α) :
+    List.zipWith (· + ·) (l.map f) (l.map g) = l.map fun x => f x + g x := by
+  induction l with
+  | nil => rfl
+  | cons a t ih => simp [ih]
+
+theorem intMeanRows_node {rows : List (List Int)} {w : Nat} {t : Int} (h : anyCould rows w = true ∧ 2 ≤ w) :
+    intMeanRows rows w t = List.zipWith (· + ·) (intMeanRows (rows.map (·.take (w / 2))) (w / 2) t)
+      (intMeanRows (rows.map (·.drop (w / 2))) (w - w / 2) t) := by
+  rw [intMeanRows, dif_pos h]
+
+theorem rowMeanWith_node {rows : List (List Int)} {w : Nat} {t : Int} {r : List Int}
+    (h : anyCould rows w = true ∧ 2 ≤ w) :
+    rowMeanWith rows w t r = rowMeanWith (rows.map (·.take (w / 2))) (w / 2) t (r.take (w / 2)) +
+      rowMeanWith (rows.map (·.drop (w / 2))) (w - w / 2) t (r.drop (w / 2)) := by
+  rw [rowMeanWith, dif_pos h]
+
+theorem rowMeanWith_leaf {rows : List (List Int)} {w : Nat} {t : Int} {r : List Int}
+    (h : ¬(anyCould rows w = true ∧ 2 ≤ w)) : rowMeanWith rows w t r = r.sum / t := by
+  rw [rowMeanWith, dif_neg h]
+
+theorem intMeanRowsSplits_node {rows : List (List Int)} {w : Nat} (h : anyCould rows w = true ∧ 2 ≤ w) :
+    intMeanRowsSplits rows w = intMeanRowsSplits (rows.map (·.take (w / 2))) (w / 2) +
+      intMeanRowsSplits (rows.map (·.drop (w / 2))) (w - w / 2) + 1 := by
+  rw [intMeanRowsSplits, dif_pos h]
+
+theorem intMeanRowsSplits_leaf {rows : List (List Int)} {w : Nat} (h : ¬(anyCould rows w = true ∧ 2 ≤ w)) :
+    intMeanRowsSplits rows w = 0 := by
+  rw [intMeanRowsSplits, dif_neg h]
+
+theorem intMeanRows_eq_map (t : Int) (w : Nat) : ∀ (rows : List (List Int)),
+    intMeanRows rows w t = rows.map (rowMeanWith rows w t) := by
+  induction w using Nat.strongRecOn with
+  | ind w ih =>
+    intro rows
+    by_cases h : anyCould rows w = true ∧ 2 ≤ w
+    · rw [intMeanRows_node h, ih (w / 2) (by omega), ih (w - w / 2) (by omega), List.map_map,
+        List.map_map, zipWith_map_map]
+      apply List.map_congr_left
+      intro r _
+      rw [rowMeanWith_node h]
+      rfl
+    · rw [intMeanRows_leaf h]
+      apply List.map_congr_left
+      intro r _
+      rw [rowMeanWith_leaf h]
+
+theorem rowMeanWith_bounds (N : Int) (hN : 0 < N) (w : Nat) : ∀ (rows : List (List Int)) (r : List Int),
+    (∀ x ∈ r, 0 ≤ x) →
+    0 ≤ rowMeanWith rows w N r ∧ rowMeanWith rows w N r ≤ r.sum / N ∧
+      r.sum / N ≤ rowMeanWith rows w N r + intMeanRowsSplits rows w := by
+  induction w using Nat.strongRecOn with
+  | ind w ih =>
+    intro rows r h0
+    by_cases h : anyCould rows w = true ∧ 2 ≤ w
+    · have h1 := ih (w / 2) (by omega) (rows.map (·.take (w / 2))) (r.take (w / 2))
+        (fun x hx => h0 x (List.mem_of_mem_take hx))
+      have h2 := ih (w - w / 2) (by omega) (rows.map (·.drop (w / 2))) (r.drop (w / 2))
+        (fun x hx => h0 x (List.mem_of_mem_drop hx))
+      rw [rowMeanWith_node h, intMeanRowsSplits_node h]
+      have hs : r.sum = (r.take (w / 2)).sum + (r.drop (w / 2)).sum := by
+        rw [← List.sum_append, List.take_append_drop]
+      have := ediv_add_bounds N hN (r.take (w / 2)).sum (r.drop (w / 2)).sum
+      rw [hs]
+      omega
+    · rw [rowMeanWith_leaf h, intMeanRowsSplits_leaf h]
+      have := sum_nonneg r h0
+      have : 0 ≤ r.sum / N := Int.ediv_nonneg this (Int.le_of_lt hN)
+      omega
+
+theorem intMeanRowsSplits_le (w : Nat) : ∀ (rows : List (List Int)), intMeanRowsSplits rows w ≤ w - 1 := by
+  induction w using Nat.strongRecOn with
+  | ind w ih =>
+    intro rows
+    by_cases h : anyCould rows w = true ∧ 2 ≤ w
+    · rw [intMeanRowsSplits_node h]
+      have := ih (w / 2) (by omega) (rows.map (·.take (w / 2)))
+      have := ih (w - w / 2) (by omega) (rows.map (·.drop (w / 2)))
+      omega
+    · rw [intMeanRowsSplits_leaf h]; omega
+
+theorem rowTraceWith_node {rows : List (List Int)} {w : Nat} {t : Int} {r : List Int}
+    (h : anyCould rows w = true ∧ 2 ≤ w) :
+    rowTraceWith rows w t r =
+      rowTraceWith (rows.map (·.take (w / 2))) (w / 2) t (r.take (w / 2)) ++
+      rowTraceWith (rows.map (·.drop (w / 2))) (w - w / 2) t (r.drop (w / 2)) ++
+      [rowMeanWith (rows.map (·.take (w / 2))) (w / 2) t (r.take (w / 2)) +
+        rowMeanWith (rows.map (·.drop (w / 2))) (w - w / 2) t (r.drop (w / 2))] := by
+  rw [rowTraceWith, dif_pos h]
+
+theorem rowTraceWith_leaf {rows : List (List Int)} {w : Nat} {t : Int} {r : List Int}
+    (h : ¬(anyCould rows w = true ∧ 2 ≤ w)) : rowTraceWith rows w t r = [r.sum, r.sum / t] := by
+  rw [rowTraceWith, dif_neg h]
+
+theorem intMeanRowsTrace_node {rows : List (List Int)} {w : Nat} {t : Int} (h : anyCould rows w = true ∧ 2 ≤ w) :
+    intMeanRowsTrace rows w t =
+      intMeanRowsTrace (rows.map (·.take (w / 2))) (w / 2) t ++
+      intMeanRowsTrace (rows.map (·.drop (w / 2))) (w - w / 2) t ++
+      List.zipWith (· + ·) (intMeanRows (rows.map (·.take (w / 2))) (w / 2) t)
+        (intMeanRows (rows.map (·.drop (w / 2))) (w - w / 2) t) := by
+  rw [intMeanRowsTrace, dif_pos h]
+
+theorem intMeanRowsTrace_leaf {rows : List (List Int)} {w : Nat} {t : Int}
+    (h : ¬(anyCould rows w = true ∧ 2 ≤ w)) :
+    intMeanRowsTrace rows w t = (rows.map List.sum) ++ (rows.map fun r => r.sum / t) := by
+  rw [intMeanRowsTrace, dif_neg h]
+
+/-- every integer of the array-level trace is an integer of some row's trace -/
+theorem intMeanRowsTrace_mem (t : Int) (w : Nat) : ∀ (rows : List (List Int)) (y : Int),
+    y ∈ intMeanRowsTrace rows w t → ∃ r ∈ rows, y ∈ rowTraceWith rows w t r := by
+  induction w using Nat.strongRecOn with
+  | ind w ih =>
+    intro rows y hy
+    by_cases h : anyCould rows w = true ∧ 2 ≤ w
+    · rw [intMeanRowsTrace_node h] at hy
+      simp only [List.mem_append] at hy
+      rcases hy with (hy | hy) | hy
+      · rcases ih (w / 2) (by omega) _ y hy with ⟨r', hr', hy'⟩
+        rcases List.mem_map.mp hr' with ⟨r, hr, rfl⟩
+        exact ⟨r, hr, by rw [rowTraceWith_node h]; simp only [List.mem_append]; exact Or.inl (Or.inl hy')⟩
+      · rcases ih (w - w / 2) (by omega) _ y hy with ⟨r', hr', hy'⟩
+        rcases List.mem_map.mp hr' with ⟨r, hr, rfl⟩
+        exact ⟨r, hr, by rw [rowTraceWith_node h]; simp only [List.mem_append]; exact Or.inl (Or.inr hy')⟩
+      · rw [intMeanRows_eq_map, intMeanRows_eq_map, List.map_map, List.map_map, zipWith_map_map] at hy
+        rcases List.mem_map.mp hy with ⟨r, hr, rfl⟩
+        exact ⟨r, hr, by rw [rowTraceWith_node h]; simp [Function.comp]⟩
+    · rw [intMeanRowsTrace_leaf h] at hy
+      simp only [List.mem_append, List.mem_map] at hy
+      rcases hy with ⟨r, hr, rfl⟩ | ⟨r, hr, rfl⟩
+      · exact ⟨r, hr, by rw [rowTraceWith_leaf h]; simp⟩
+      · exact ⟨r, hr, by rw [rowTraceWith_leaf h]; simp⟩
+
+/-- a row of a block the (array-wide) conservative test lets through has a sum inside int64 -/
+theorem row_leaf_sum_le (rows : List (List Int)) (w : Nat) (r : List Int) (hr : r ∈ rows) (hl : r.length = w)
+    (M : Int) (hM : M ≤ I64MAX) (hb : ∀ x ∈ r, 0 ≤ x ∧ x ≤ M)
+    (h : ¬(anyCould rows w = true ∧ 2 ≤ w)) : r.sum ≤ I64MAX := by
+  apply leaf_sum_le r M hM hb
+  intro ⟨hc, h2⟩
+  apply h
+  refine ⟨?_, by omega⟩
+  simp only [anyCould, List.any_eq_true]
+  refine ⟨r, hr, ?_⟩
+  simpa [couldSumOverflow, hl] using hc
+
+/-- every integer `_int_mean(axis=1)` computes for a row of an array of values in `[0, M]`,
+    `M ≤ int64 max`, lies in `[0, int64 max]` -/
+theorem rowTraceWith_bounds (N : Int) (hN : 0 < N) (M : Int) (hM : M ≤ I64MAX) (w : Nat) :
+    ∀ (rows : List (List Int)) (r : List Int), r ∈ rows →
+    (∀ r' ∈ rows, r'.length = w ∧ ∀ x ∈ r', 0 ≤ x ∧ x ≤ M) → (w : Int) ≤ N →
+    ∀ y ∈ rowTraceWith rows w N r, 0 ≤ y ∧ y ≤ I64MAX := by
+  induction w using Nat.strongRecOn with
+  | ind w ih =>
+    intro rows r hr hb hl y hy
+    have hbr := hb r hr
+    by_cases h : anyCould rows w = true ∧ 2 ≤ w
+    · rw [rowTraceWith_node h] at hy
+      have hbt : ∀ r' ∈ rows.map (·.take (w / 2)), r'.length = w / 2 ∧ ∀ x ∈ r', 0 ≤ x ∧ x ≤ M := by
+        intro r' hr'
+        rcases List.mem_map.mp hr' with ⟨r0, hr0, rfl⟩
+        have := hb r0 hr0
+        exact ⟨by simp only [List.length_take]; omega, fun x hx => this.2 x (List.mem_of_mem_take hx)⟩
+      have hbd : ∀ r' ∈ rows.map (·.drop (w / 2)), r'.length = w - w / 2 ∧ ∀ x ∈ r', 0 ≤ x ∧ x ≤ M := by
+        intro r' hr'
+        rcases List.mem_map.mp hr' with ⟨r0, hr0, rfl⟩
+        have := hb r0 hr0
+        exact ⟨by simp only [List.length_drop]; omega, fun x hx => this.2 x (List.mem_of_mem_drop hx)⟩
+      simp only [List.mem_append, List.mem_singleton] at hy
+      rcases hy with (hy | hy) | hy
+      · exact ih (w / 2) (by omega) _ _ (List.mem_map_of_mem hr) hbt (by omega) y hy
+      · exact ih (w - w / 2) (by omega) _ _ (List.mem_map_of_mem hr) hbd (by omega) y hy
+      · subst hy
+        have b1 := rowMeanWith_bounds N hN (w / 2) (rows.map (·.take (w / 2))) (r.take (w / 2))
+          (fun x hx => (hbr.2 x (List.mem_of_mem_take hx)).1)
+        have b2 := rowMeanWith_bounds N hN (w - w / 2) (rows.map (·.drop (w / 2))) (r.drop (w / 2))
+          (fun x hx => (hbr.2 x (List.mem_of_mem_drop hx)).1)
+        have hs : r.sum = (r.take (w / 2)).sum + (r.drop (w / 2)).sum := by
+          rw [← List.sum_append, List.take_append_drop]
+        have b3 := ediv_add_bounds N hN (r.take (w / 2)).sum (r.drop (w / 2)).sum
+        rw [← hs] at b3
+        have hM0 : 0 ≤ M := by
+          match r, hbr with
+          | [], hbr => have := hbr.1; simp at this; omega
+          | x :: _, hbr => have := hbr.2 x List.mem_cons_self; omega
+        have h4 := sum_le_length_mul r M (fun x hx => (hbr.2 x hx).2)
+        rw [hbr.1] at h4
+        have h5 : (w : Int) * M ≤ N * M := Int.mul_le_mul_of_nonneg_right hl hM0
+        have h6 : r.sum / N ≤ M := Int.ediv_le_of_le_mul hN (by have := Int.mul_comm N M; omega)
+        omega
+    · rw [rowTraceWith_leaf h] at hy
+      have hs0 := sum_nonneg r (fun x hx => (hbr.2 x hx).1)
+      have hs1 := row_leaf_sum_le rows w r hr hbr.1 M hM hbr.2 h
+      simp only [List.mem_cons, List.not_mem_nil, or_false] at hy
+      rcases hy with hy | hy
+      · subst hy; exact ⟨hs0, hs1⟩
+      · subst hy
+        have : 0 ≤ r.sum / N := Int.ediv_nonneg hs0 (Int.le_of_lt hN)
+        have : r.sum / N ≤ r.sum := Int.ediv_le_self _ hs0
+        omega
+
+/-- the rows after the global minimum shift -/
+def shiftRows (rows : List (List Int)) : List (List Int) :=
+  rows.map fun r => r.map (· - listMin rows.flatten)
+
+theorem tsMeanRows_eq (rows : List (List Int)) (w : Nat) (hne : rows.flatten ≠ []) :
+    tsMeanRows rows w = some (rows.map fun r =>
+      listMin rows.flatten + rowMeanWith (shiftRows rows) w w (r.map (· - listMin rows.flatten))) := by
+  unfold tsMeanRows
+  rw [if_neg hne]
+  simp only [Option.some.injEq]
+  rw [intMeanRows_eq_map]
+  simp only [shiftRows, List.map_map]
+  rfl
+
+theorem shiftRows_bounds (rows : List (List Int)) (r : List Int) (hr : r ∈ rows) :
+    ∀ y ∈ r.map (· - listMin rows.flatten),
+      0 ≤ y ∧ y ≤ listMax rows.flatten - listMin rows.flatten := by
+  intro y hy
+  rcases List.mem_map.mp hy with ⟨x, hx, rfl⟩
+  have hxF : x ∈ rows.flatten := List.mem_flatten.mpr ⟨r, hr, hx⟩
+  have := listMin_le _ x hxF
+  have := le_listMax _ x hxF
+  omega
+
+/-- row `r` of `timestamp_mean(rows, axis=1)`, whatever the split depth -/
+theorem tsMeanRows_row_bounds (rows : List (List Int)) (w : Nat) (hw : 0 < w)
+    (hlen : ∀ r ∈ rows, r.length = w) (r : List Int) (hr : r ∈ rows) :
+    let v := listMin rows.flatten + rowMeanWith (shiftRows rows) w w (r.map (· - listMin rows.flatten))
+    r.sum / (w : Int) - intMeanRowsSplits (shiftRows rows) w ≤ v ∧ v ≤ r.sum / (w : Int) ∧
+      listMin rows.flatten ≤ v ∧ v ≤ listMax r := by
+  intro v
+  have hsh := shiftRows_bounds rows r hr
+  have b := rowMeanWith_bounds (w : Int) (by omega) w (shiftRows rows) _ (fun x hx => (hsh x hx).1)
+  rw [sum_map_sub, hlen r hr] at b
+  have e : r.sum - (w : Int) * listMin rows.flatten = r.sum + (w : Int) * (-listMin rows.flatten) := by
+    rw [Int.mul_neg]; omega
+  rw [e, Int.add_mul_ediv_left _ _ (by omega)] at b
+  have hrne : r ≠ [] := by
+    intro h; have := hlen r hr; rw [h] at this; simp at this; omega
+  have hm := (floor_mean_mem r hrne).2
+  rw [hlen r hr] at hm
+  refine ⟨?_, ?_, ?_, ?_⟩ <;> (simp only [v]; omega)
+
+
+theorem rowsOf_flatten_mem {α} (k : Nat) (l : List α) (x : α) (hx : x ∈ (rowsOf k l).flatten) : x ∈ l := by
+  rw [rowsOf_eq] at hx
+  rcases List.mem_flatten.mp hx with ⟨r, hr, hxr⟩
+  rcases List.mem_map.mp hr with ⟨j, _, rfl⟩
+  exact List.mem_of_mem_drop (List.mem_of_mem_take hxr)
+
 end Verif.C03
